@@ -587,6 +587,35 @@ class Sym:
         g = None
         out = []
         changed = False
+        # squares of atoms that have a defining relation (sqrt atoms, cos atoms, constrained inputs) are rewritten in
+        # the denominator too:  r^2 -> its polynomial, so that it can cancel against the numerator
+        extra = []
+        f2 = []
+        for i, e in f:
+            p = _FACTOR_POLY[i]
+            if len(p) == 1 and e >= 2:
+                (m, _), = p.items()
+                aid = m[0][0]
+                if aid in RULES and ATOMS[aid].kind != 'sign':
+                    k2, rem = divmod(e, 2)
+                    c, gg, q = _split_poly(RULES[aid])
+                    if c != 1:
+                        n = pscale(n, Fraction(1) / (Fraction(c) ** k2))
+                    for j, ej in gg.items():
+                        extra.append((_fid(pvar(j)), ej * k2))
+                    if q is not ONE:
+                        extra.append((_fid(q), k2))
+                    if rem:
+                        f2.append((i, rem))
+                    continue
+            f2.append((i, e))
+        if extra:
+            f = _fmerge(tuple(sorted(f2)), tuple(sorted(_fmerge((), tuple(extra), 'sum'))), 'sum') if False else None
+            d = {}
+            for i, e in f2 + extra:
+                d[i] = d.get(i, 0) + e
+            f = tuple(sorted(d.items()))
+            return Sym._norm(n, f)
         for i, e in f:
             p = _FACTOR_POLY[i]
             if len(p) == 1:
@@ -862,14 +891,24 @@ class Sym:
         r = (self != 0)
         return bool(r)
 
-    def __float__(self):
+    def _numeric_const(self):
+        """value of an expression built only from constant atoms (pi, sqrt of constants, their trig), else None"""
         c = self.const_value()
+        if c is not None:
+            return c
+        try:
+            return sym_value(self, {})
+        except KeyError:
+            return None
+
+    def __float__(self):
+        c = self._numeric_const()
         if c is None:
             raise SymbolicLeak('float() of a symbolic value: %s' % self)
         return float(c)
 
     def __int__(self):
-        c = self.const_value()
+        c = self._numeric_const()
         if c is None:
             raise SymbolicLeak('int() of a symbolic value: %s' % self)
         return int(c)
@@ -882,6 +921,10 @@ class Sym:
 
     def __round__(self, nd=None):
         c = self.const_value()
+        if c is None:
+            c = self._numeric_const()
+            if c is not None:
+                return round(c, nd) if nd is not None else round(c)
         if c is None:
             h = ROUND_HOOK[0]
             if h is not None:
@@ -1294,6 +1337,32 @@ def trig_axioms(a, th, sz, cz, lo, hi, taylor):
     s_atom.deps = tuple(set(s_atom.deps) | {pi_atom().id})
 
 
+def half_angle_atoms(at):
+    """sin(a/2), cos(a/2) atoms of an angle atom, tied to sin a / cos a by the double-angle formulas"""
+    name = at.name
+    hs = ATOM_BY_NAME.get('sinh{%s}' % name)
+    if hs is None:
+        hs = new_atom('sinh{%s}' % name, 'sin', None)
+        hc = new_atom('cosh{%s}' % name, 'cos', None)
+        hs.data = Sym(pvar(at.id)) / 2
+        hc.data = hs.data
+        RULES[hc.id] = {(): 1, ((hs.id, 2),): -1}
+        sa, ca = at.data.sin, at.data.cos
+        ax = [hs.z * hs.z + hc.z * hc.z == 1, sa.z() == 2 * hs.z * hc.z, ca.z() == 1 - 2 * hs.z * hs.z]
+        P = pi_atom().z
+        ax += [z3.Implies(z3.And(at.z >= 0, at.z <= 2 * P), hs.z >= 0),
+               z3.Implies(z3.And(at.z >= -P, at.z <= P), hc.z >= 0),
+               z3.Implies(z3.And(at.z <= 0, at.z >= -2 * P), hs.z <= 0)]
+        hs.axioms = ax
+        hc.axioms = ax
+        deps = set(sa.atoms() | ca.atoms() | {at.id, pi_atom().id})
+        hs.deps = tuple(deps)
+        hc.deps = tuple(deps | {hs.id})
+    else:
+        hc = ATOM_BY_NAME['cosh{%s}' % name]
+    return hs, hc
+
+
 def _multiple_angle(s, c, n):
     """(sin(n a), cos(n a)) from Syms s, c; n >= 0 integer."""
     if n == 0:
@@ -1356,6 +1425,14 @@ def _sincos_uncached(x, used):
             s1, c1 = [(0, 1), (1, 0), (0, -1), (-1, 0)][k2]
             s1, c1 = Sym.const(s1), Sym.const(c1)
         elif at.kind == 'angle':
+            if cf.denominator == 2:
+                hs, hc = half_angle_atoms(at)
+                used.add(hs.id); used.add(hc.id)
+                s1, c1 = _multiple_angle(Sym(pvar(hs.id)), Sym(pvar(hc.id)), abs(int(cf * 2)))
+                if cf < 0:
+                    s1 = -s1
+                s_tot, c_tot = s_tot * c1 + c_tot * s1, c_tot * c1 - s_tot * s1
+                continue
             if cf.denominator != 1:
                 ok = False
                 break
@@ -1566,7 +1643,7 @@ def sym_diff(x, var_atom):
             inner = sym_diff(at.data, var_atom)
             if not inner.is_zero():
                 s_, c_ = _sincos(at.data)
-                r = (c_ if at.name.startswith('Sin') else -s_) * inner
+                r = (c_ if at.kind == 'sin' else -s_) * inner
         elif at.kind == 'sqrt':
             inner = sym_diff(at.data, var_atom)
             if not inner.is_zero():
@@ -1640,3 +1717,63 @@ def sym_value(x, inputs, cache=None):
     if x.d is ONE:
         return n
     return n / p_eval(x.d, env)
+
+
+def random_point(atom_ids, rng, tries=20):
+    """random point on the variety of the defining relations, for randomized polynomial identity tests:
+    returns dict atom id -> float for the given atoms and everything they depend on, or None"""
+    need = set()
+    stack = list(atom_ids)
+    while stack:
+        i = stack.pop()
+        if i in need:
+            continue
+        need.add(i)
+        at = ATOMS[i]
+        for j in at.deps:
+            stack.append(j)
+        if i in RULES:
+            for j in patoms(RULES[i]):
+                stack.append(j)
+        if isinstance(at.data, Sym):
+            for j in at.data.atoms():
+                stack.append(j)
+        elif isinstance(at.data, Atom):
+            stack.append(at.data.id)
+        elif isinstance(at.data, AngleInfo):
+            for q in (at.data.sin, at.data.cos):
+                if q is not None:
+                    for j in q.atoms():
+                        stack.append(j)
+    for _ in range(tries):
+        inputs = {}
+        cache = {}
+        ok = True
+        for i in sorted(need):
+            at = ATOMS[i]
+            try:
+                if at.kind in ('var', 'int', 'stub') or (at.kind == 'angle' and at.data.cos is not None and
+                                                          ('cos{%s}' % at.name) in ATOM_BY_NAME):
+                    if i in RULES and at.kind == 'var':
+                        env = {j: atom_value(j, inputs, cache) for j in patoms(RULES[i])}
+                        v2 = p_eval(RULES[i], env)
+                        if v2 < 0:
+                            ok = False
+                            break
+                        v = math.sqrt(v2) * (1 if rng.random() < 0.5 else -1)
+                    elif at.kind == 'int':
+                        v = float(rng.randint(-3, 3))
+                    elif at.kind == 'angle':
+                        v = rng.uniform(0.2, 1.4)
+                    else:
+                        v = rng.uniform(-0.55, 0.55)
+                    inputs[at.name] = v
+                    cache[i] = v
+                else:
+                    atom_value(i, inputs, cache)
+            except (KeyError, ValueError, ZeroDivisionError):
+                ok = False
+                break
+        if ok:
+            return cache
+    return None
